@@ -431,7 +431,7 @@ class StmtMixin:
         names = assigned_names(body, st.env)
         if kind == "for":
             names |= {n.id for n in ast.walk(s.target) if isinstance(n, ast.Name)}
-        attrs = assigned_attrs(body) | self.callee_modifies(body, fr)
+        attrs = assigned_attrs(body) | self.callee_modifies(body, fr, st.env)
         seq = elem = None
         if kind == "for":
             seq, elem = self.iter_view(src, s, st, fr)
@@ -521,7 +521,7 @@ class StmtMixin:
                     return True
         return False
 
-    def callee_modifies(self, body, fr) -> set:
+    def callee_modifies(self, body, fr, env=None) -> set:
         """heap attributes that contracted callees invoked in the body may modify (by method name, conservatively)"""
         out = set()
         for s in body:
@@ -530,6 +530,10 @@ class StmtMixin:
                     name = n.func.attr if isinstance(n.func, ast.Attribute) else (n.func.id if isinstance(n.func, ast.Name) else None)
                     if not name:
                         continue
+                    if isinstance(n.func, ast.Attribute) and isinstance(n.func.value, ast.Name) and env is not None:
+                        rv = env.get(n.func.value.id)
+                        if rv is not None and rv.pt in ("list", "set", "frozenset", "dict", "tuple", "str", "pylist", "pydict", "int", "bool"):
+                            continue      # a method of a local builtin container, not of a repository object
                     for key, c in self.side.contracts.items():
                         if key.split("::")[-1].split(".")[-1] == name and c.modifies:
                             out |= {a for a in c.modifies if not a.startswith("*")}
